@@ -46,6 +46,7 @@ type Engine struct {
 	cur *fnCtx
 	dry int
 	dryLoops []*loopInfo
+	dryEsc   []map[string]bool // per dry-run loop: references that escaped in the body
 	globalFacts []string
 	iters map[string]*iterState
 	snaps []map[string]string
